@@ -212,6 +212,67 @@ fn main() {
         "window" => window(&a[2], a[3].parse().unwrap()),
         // filter <neg 0|1> <Op> <xclass> <x> <litclass> <lit>: does `.where(expr)` accept the event iff a one-step sequence with the same
         // filter (translated by the real expr_to_sase_predicate, matched by the real SaseEngine) matches it?
+        "seqstep" => {
+            // bounded probe of "every reported match is a genuine occurrence" through SaseEngine::process: SEQ(S as s, X [filter] as t) and
+            // SEQ(S as s, X [filter] as t, Y as u) over every stream of 4 events from a 6-event alphabet; every reported match is checked against
+            // an independent reading of the pattern: step types, arrival order, the filter on the captured events.
+            use varpulis_runtime::sase::{CompareOp, Predicate, SaseEngine, SasePattern};
+            let ops = [("Eq", CompareOp::Eq), ("NotEq", CompareOp::NotEq), ("Lt", CompareOp::Lt), ("Le", CompareOp::Le), ("Gt", CompareOp::Gt), ("Ge", CompareOp::Ge)];
+            fn holds(a: Option<&Value>, b: Option<&Value>, op: &str) -> bool {
+                let (a, b) = match (a, b) { (Some(a), Some(b)) => (a, b), _ => return false };
+                let eq = match (a, b) { (Value::Int(x), Value::Int(y)) => x == y, (Value::Str(x), Value::Str(y)) => x == y, _ => false };
+                let ord = match (a, b) { (Value::Int(x), Value::Int(y)) => Some(x.cmp(y)), (Value::Str(x), Value::Str(y)) => Some(x.cmp(y)), _ => None };
+                use std::cmp::Ordering::*;
+                match op { "Eq" => eq, "NotEq" => !eq, "Lt" => ord == Some(Less), "Le" => matches!(ord, Some(Less | Equal)), "Gt" => ord == Some(Greater), _ => matches!(ord, Some(Greater | Equal)) }
+            }
+            let alphabet: Vec<Event> = vec![Event::new("S").with_field("y", Value::Int(1)), Event::new("S").with_field("y", Value::Str("a".into())), Event::new("X").with_field("x", Value::Int(1)),
+                                            Event::new("X").with_field("x", Value::Int(2)), Event::new("X"), Event::new("Y").with_field("x", Value::Int(1)), Event::new("X").with_field("x", Value::Str("a".into()))];
+            let mut filters: Vec<(String, Option<Predicate>)> = vec![("none".into(), None)];
+            for (n, o) in &ops {
+                for lit in [Value::Int(1), Value::Str("a".into())] { filters.push((format!("lit:{n}:{lit:?}"), Some(Predicate::Compare { field: "x".into(), op: *o, value: lit }))) }
+                filters.push((format!("ref:{n}"), Some(Predicate::CompareRef { field: "x".into(), op: *o, ref_alias: "s".into(), ref_field: "y".into() })));
+                filters.push((format!("refmissing:{n}"), Some(Predicate::CompareRef { field: "x".into(), op: *o, ref_alias: "nobody".into(), ref_field: "y".into() })));
+            }
+            let mut bad: Vec<String> = Vec::new(); let mut count = 0usize; let mut matches = 0usize;
+            let n = alphabet.len();
+            'all: for (fname, pred) in &filters {
+                for three in [false, true] {
+                    for sid in 0..n.pow(4) {
+                        let mut steps = vec![SasePattern::Event { event_type: "S".into(), predicate: None, alias: Some("s".into()) },
+                                             SasePattern::Event { event_type: "X".into(), predicate: pred.clone(), alias: Some("t".into()) }];
+                        if three { steps.push(SasePattern::Event { event_type: "Y".into(), predicate: None, alias: Some("u".into()) }) }
+                        let mut eng = SaseEngine::new(SasePattern::Seq(steps));
+                        let mut x = sid;
+                        for pos in 0..4 {
+                            let ev = alphabet[x % n].clone().with_field("i", Value::Int(pos)); x /= n;
+                            for m in eng.process(&ev) {
+                                matches += 1;
+                                let want: Vec<&str> = if three { vec!["S", "X", "Y"] } else { vec!["S", "X"] };
+                                let tys: Vec<String> = m.stack.iter().map(|e| e.event.event_type.to_string()).collect();
+                                let idx: Vec<i64> = m.stack.iter().map(|e| e.event.get("i").and_then(|v| v.as_int()).unwrap_or(-1)).collect();
+                                let mut why = Vec::new();
+                                if tys != want { why.push(format!("step types {tys:?}")) }
+                                if !idx.windows(2).all(|w| w[0] < w[1]) || idx.last() != Some(&pos) { why.push(format!("arrival order {idx:?} (current event {pos})")) }
+                                if tys == want {
+                                    let s_ev = &m.stack[0].event; let x_ev = &m.stack[1].event;
+                                    let ok = match fname.split(':').next().unwrap() {
+                                        "none" => true,
+                                        "lit" => { let p = pred.as_ref().unwrap(); if let Predicate::Compare { value, .. } = p { holds(x_ev.get("x"), Some(value), fname.split(':').nth(1).unwrap()) } else { true } }
+                                        "ref" => holds(x_ev.get("x"), s_ev.get("y"), fname.split(':').nth(1).unwrap()),
+                                        _ => false,
+                                    };
+                                    if !ok { why.push(format!("the filter {fname} does not hold on x = {:?} (s.y = {:?})", x_ev.get("x"), s_ev.get("y"))) }
+                                    if m.captured.get("t").map(|e| e.get("i").cloned()) != Some(x_ev.get("i").cloned()) { why.push("alias t is not bound to the step-2 event".into()) }
+                                }
+                                if !why.is_empty() { bad.push(format!("filter {fname}, {} steps, stream {sid}: {}", if three { 3 } else { 2 }, why.join(", "))); if bad.len() > 3 { break 'all } }
+                            }
+                        }
+                        count += 1;
+                    }
+                }
+            }
+            if bad.is_empty() { println!("OK seqstep: {count} streams, {matches} reported matches, all genuine") } else { println!("REPRODUCED seqstep: {}", bad.join("; ")) }
+        }
         "backpressure" => {
             // backpressure <strategy> <max_runs> <rate_bits> <partitioned 0|1> <nruns>: bounded probe of the run-count bound through the
             // public API: SEQ(A, B, C) with many A's (each starts a run) mixed with B's (progress), with and without partition_by;
